@@ -5,7 +5,8 @@
      open result (environment: `open_ok`) is applied at once;
    - there is no Connecting notification, one Wait state for both kinds of delay, Open for
      Connected (`port_of`);
-   - max_timeouts is None, and RTU frames carry no transaction id (not relevant for the life-cycle).
+   - max_timeouts is None, and RTU frames carry no transaction id: a delivered frame is given the
+     outstanding id (`rtu_event`; see rtu_step in Model/ClientTask.v).
    Every serial run is therefore a run of the TCP system (with the connect results inserted), so
    the theorems proved for all TCP event lists apply.  Definitions only. *)
 From Coq Require Import NArith List Bool.
@@ -25,10 +26,14 @@ Definition settle_open (ok : bool) (r : state * list output) : state * list outp
   | _ => r
   end.
 
+(* RTU frames carry no transaction id: a delivered frame matches whatever is outstanding *)
+Definition rtu_event (s : state) (e : event) : event :=
+  match e with EvFrame _ k => EvFrame (cur_tx s) k | _ => e end.
+
 Definition sstep (x : sstate) (e : sevent) : sstate * list output :=
   match e with
   | SSetOpen ok => ({| ss := ss x; open_ok := ok |}, [])
-  | SEnv e => let '(s', o) := settle_open (open_ok x) (step cfg (ss x) e) in ({| ss := s'; open_ok := open_ok x |}, o)
+  | SEnv e => let '(s', o) := settle_open (open_ok x) (step cfg (ss x) (rtu_event (ss x) e)) in ({| ss := s'; open_ok := open_ok x |}, o)
   end.
 
 Fixpoint srun (x : sstate) (es : list sevent) : sstate * list output :=
